@@ -84,6 +84,9 @@ func TestVerifC07Svc(t *testing.T) {
 		}
 		tp, cleanup := NewTestingProtocol(ctx, t, nil, nil)
 		svc := tp.Service.(*service)
+		// the freshly started service appends its own device entry and announcement asynchronously: not while a
+		// refused request's "nothing appended" is being measured
+		waitOwnAnnouncement(svc.getAccountGroup())
 		env := newMEnv(seed, svc.getAccountGroup().MemberPubKey())
 		for hi := start; hi < end; hi++ {
 			name := fmt.Sprintf("H%d", hi)
